@@ -813,9 +813,12 @@ def gen_geom_case(rng, ndim):
 
 def regime_3d(r, hs):
     """Regime of one area_3d_bounded row from its six wall distances hs = [x-, x+, y-, y+, z-, z+] (the code's own masks):
-    which of the cap / edge / corner terms are switched on, and whether the proved theorems cover the row
-    (all edge terms that are on belong to box edges parallel to one axis, no corner term:
-    C19_area_3d_single_cap_partial / C19_area_3d_edges_partial / C19_area_3d_parallel_edges_partial)."""
+    which of the cap / edge / corner terms are switched on, and which theorem covers the row:
+    'parallel' -- all edge terms that are on belong to box edges parallel to one axis, no corner term
+    (C19_area_3d_single_cap_partial / C19_area_3d_edges_partial / C19_area_3d_parallel_edges_partial);
+    'general' -- edge terms of two or three directions and / or a corner term on: covered by C19_area_3d_bounded_is_area
+    (every r > 0, every centre in the closed box), which also contains the first kind;
+    None -- centre outside the closed box or r <= 0: outside the hypotheses of every theorem (numerical reference only)."""
     import itertools
     reach = [[hs[2 * a + s] < r for s in range(2)] for a in range(3)]
     axes_hit = [a for a in range(3) if any(reach[a])]
@@ -834,8 +837,11 @@ def regime_3d(r, hs):
     else:
         name = 'single axis (no face within reach)'
     # C19_area_3d_parallel_edges_partial: for some axis, no cap of a face perpendicular to it overlaps a cap of a face parallel to it
-    proved = any(all(hs[2 * ax + s] ** 2 + hs[2 * b + sb] ** 2 >= r * r for s in range(2) for b in range(3) if b != ax for sb in range(2))
-                 for ax in range(3))
+    parallel = any(all(hs[2 * ax + s] ** 2 + hs[2 * b + sb] ** 2 >= r * r for s in range(2) for b in range(3) if b != ax for sb in range(2))
+                   for ax in range(3))
+    # C19_area_3d_bounded_is_area: 0 < r, centre in the closed box (all six wall distances >= 0); nothing else
+    in_hyp = r > 0 and all(h >= 0 for h in hs)
+    proved = None if not in_hyp else ('parallel' if parallel else 'general')
     return name, proved
 
 
@@ -918,8 +924,10 @@ def eval_geom(chk, c):
         reg = None
         if ndim == 3:
             name, proved = regime_3d(r, [float(x) for x in hs])
-            reg = 'edge-correction 3D regime: %s; %s' % (name, 'edge terms on only along one axis, no corner term (proved regime)' if proved
-                                                         else 'edge terms of two directions or a corner term on (numerical reference only)')
+            reg = 'edge-correction 3D regime: %s; %s' % (name, {
+                'parallel': 'edge terms on only along one axis, no corner term (proved regime: C19_area_3d_parallel_edges_partial and C19_area_3d_bounded_is_area)',
+                'general': 'edge terms of two directions or a corner term on (proved regime: C19_area_3d_bounded_is_area)',
+                None: 'centre outside the closed box or r <= 0 (outside the theorems: numerical reference only)'}[proved])
             chk.tally(reg)
         if near_tangent(r, hs, ndim):
             chk.tally('edge-correction within 1e-7 of a tangency (ill-conditioned, not compared)')
@@ -1041,11 +1049,13 @@ def run(chk):
         "float distance arithmetic agrees with exact arithmetic on lattice inputs; pairs exactly at a separation that is not a power of two are skipped and counted",
         "np.histogram's propagation of a NaN weight into all later bins is not part of the model: bins from the first NaN bin on are not compared",
         "the edge measure enters the g(r) model as a table computed by vp/staticgeom.py (wall crossings in 2-D, hat-box quadrature in 3-D; agreement with trackpy's closed forms is what is checked, to 1e-9 r / 1e-8 r^2)",
-        "3-D: area_3d_bounded is proved to be the area inside the box when the faces within reach are perpendicular to one axis (C19_area_3d_single_cap_partial) "
-        "or all parallel to one axis -- two adjacent faces with disjoint or overlapping caps, columns -- (C19_area_3d_edges_partial; sphere_edge_area is the area of the lune, "
-        "C19_sphere_edge_area_is_lune), or more generally when every edge term that is switched on belongs to a box edge parallel to one axis (C19_area_3d_parallel_edges_partial), the area being measured in the axial parametrisation about that axis (area element r dphi dt proved; independence of the axis: classical, not proved); "
-        "with edge terms of two directions or a corner term (sphere_corner_area) switched on only consistency identities and the slice-integral characterisation (C19_area_3d_slice_integral_partial) are proved: "
-        "covered numerically; every 3-D row is tallied by regime ('edge-correction 3D regime: ...') and compared with the reference in each",
+        "3-D: area_3d_bounded (the generated function, NaN mask included) is proved to be the area of the part of the sphere inside the box for EVERY r > 0 and EVERY centre in the closed box "
+        "(C19_area_3d_bounded_is_area: caps, edge terms of one, two or three directions and corner terms in any combination; sphere_edge_area is the area of the lune, C19_sphere_edge_area_is_lune, "
+        "sphere_corner_area the area of the spherical triangle beyond three adjacent faces, C19_sphere_corner_area_is_triangle), the area being measured in the axial parametrisation "
+        "(area element r dphi dt proved to be the Euclidean surface element; the three coordinate axes give the same value for these sets, C19_area_3d_axis_independent; "
+        "that this axial area agrees with surface area defined otherwise for arbitrary sets is classical and not proved); "
+        "every 3-D row is tallied by regime ('edge-correction 3D regime: ...': which terms are on and which theorem covers it) and compared with the numerical reference in each; "
+        "rows with the centre outside the box are outside the theorems and covered numerically only",
         "Gen/static_geom.v is produced by tools/py2coq_static.py (trusted translator, fail-closed; conventions in its docstring: one point of the numpy vector code over R, "
         "acc[mask] -= v read as acc - (if mask then v else 0), _protect_mask checked by abstract evaluation to be the elementwise conditional, 10**-5 / 10**-7 as exact "
         "reals, NaN as None; acos / asin / sqrt / division are total in Coq: the generated functions speak for the code where numpy stays in the domains, i.e. centre in the closed box, dist > 0)",
